@@ -12,12 +12,14 @@ occurrences gives the same per-string result; re-checked every run).
 import binascii, re
 from vf import core
 
-THM = ["YaraModel.Thm.C05", "YaraModel.Thm.AcCert"]
+THM = ["YaraModel.Thm.C05", "YaraModel.Thm.C05Cond", "YaraModel.Thm.AcCert"]
 MANIFEST = dict(
     technique="Lean 4 theorem (per-string result is a function of the string and the buffer for EVERY candidate stage meeting the automaton contract) + alone-vs-company / permutation / prefix / source-split differential on the real compiler and scanner",
     text="proof: Thm/C05.lean proves that the modelled per-string result (offsets, admissible lengths/keys) is the same for ANY two candidate stages that each report exactly the occurrences "
-         "of the string's atoms — i.e. whatever else shares the automaton (corollary of C01's pipeline theorem; the two hypotheses of that theorem apply), and that a rule's verdict is a function "
-         "of its own strings' results and the verdicts of the rules it references. The tie to the code is a differential run: each rule alone vs. in a colliding company, permutations, prefixes "
+         "of the string's atoms — i.e. whatever else shares the automaton (corollary of C01's pipeline theorem; the two hypotheses of that theorem apply). Thm/C05Cond.lean proves, over the "
+         "condition language of Spec/Cond.lean (all constructs, every block layout, file size and external values), that each rule of a rule set gets the same verdict in EVERY larger rule set "
+         "that contains it and the rules it refers to, in the same order, among arbitrary other rules before, between and after them (verdict_company_independent, by the frame lemma eval_rename; "
+         "verdict_alone for rules naming no other rule). The tie to the code is a differential run: each rule alone vs. in a colliding company, permutations, prefixes "
          "(monotonicity) and source splits/includes; the automaton contract itself is checked per case through hooks in C01. Rule-set shapes are sampled.",
     design_ref="DESIGN.md §5 C05",
     note=core.TB + "Text strings only in the theorem (hex/regex strings covered by the differential). Global rules are not added to the namespace of the rule under test (excluded by the property).")
